@@ -27,7 +27,7 @@ func (c *Ctx) literalBounds(rule string) {
 				var num ssa.Value
 				engine.Backward(ms.Len, engine.FlowOpts{}, func(x ssa.Value) bool {
 					if call, ok := x.(*ssa.Call); ok {
-						if sc := call.Call.StaticCallee(); sc != nil && (sc.Name() == "ParseNumber" || sc.Name() == "ParseNZNumber" || sc.Name() == "ParseNumberN") {
+						if sc := call.Call.StaticCallee(); sc != nil && (engine.ShortName(sc) == "ParseNumber" || engine.ShortName(sc) == "ParseNZNumber" || engine.ShortName(sc) == "ParseNumberN") {
 							fromNumber = true
 						}
 					}
@@ -93,10 +93,10 @@ func (c *Ctx) readerErrorPath(rule string) {
 					switch t := in.(type) {
 					case *ssa.Call:
 						if sc := t.Call.StaticCallee(); sc != nil {
-							if sc.Name() == "Parse" && engine.RecvNamed(sc) != nil && engine.RecvNamed(sc).Obj().Name() == "Parser" {
+							if engine.ShortName(sc) == "Parse" && engine.RecvNamed(sc) != nil && engine.RecvNamed(sc).Obj().Name() == "Parser" {
 								parse = t
 							}
-							if sc.Name() == "ConsumeInvalidInput" {
+							if engine.ShortName(sc) == "ConsumeInvalidInput" {
 								cut[t] = true
 							}
 						}
@@ -419,11 +419,11 @@ func (c *Ctx) errorUseOK(call *ssa.Call, g *ssa.Function, seen map[*ssa.Function
 			case *ssa.Return:
 				returned = true
 			case *ssa.Call:
-				if sc := t.Call.StaticCallee(); sc != nil && sc.Name() == "FromError" {
+				if sc := t.Call.StaticCallee(); sc != nil && engine.ShortName(sc) == "FromError" {
 					consumed = true
 				}
 				// fmt.Errorf("%w") wrapping keeps the response reachable through errors.As
-				if sc := t.Call.StaticCallee(); sc != nil && sc.Name() == "Errorf" {
+				if sc := t.Call.StaticCallee(); sc != nil && engine.ShortName(sc) == "Errorf" {
 					walk(t, d+1)
 				}
 			case *ssa.Phi:
